@@ -21,6 +21,14 @@ C  every built-in pass and random PassManager compositions on generated models: 
    nothing, use-def/ownership checker, sorted stays sorted, names kept; concrete flag models
    (ClearMetadataAndDocString, TopologicalSort, Remove/AddInitializers{From,To}Inputs) compared with Lean.
 D  fault injection at the ONNX boundary for CheckerPass / ShapeInferencePass on the generated models.
+H  (second deepening round) InlinePass vs C05's model of the pass + the flag / measure of Model/PassFlags3.lean (driver
+   `passinfra.inline`: flag, counter, #accepted calls before / after, RESULT model, second application, hypotheses
+   `funcIdsNodup` / `stuck` / `validF`); RemoveUnusedNodes and IdentityElimination as programs over C01's kernel
+   (`passinfra.kpass`, Model/PassKernel.lean): a world is built through C01's alphabet on the real objects
+   (harness/kernel_ops.Real), the real pass runs on it, and the change of the canonical world dump is compared with the
+   kernel program's; C01's invariant is evaluated on the real objects after the pass (kernel_ops.wf_oracle).
+Every item of every stream runs under a CPU / wall-clock interval timer (`_guard`): a call of the implementation that
+does not return becomes the failure `nontermination:<stream>[:<pass>]`, never a hung check.
 """
 from __future__ import annotations
 
@@ -106,6 +114,16 @@ THEOREMS = [
     "IrVerif.PassInfra.C14_fix_unused_functions",
     "IrVerif.PassInfra.C14_keeps_sorted_delete",
     "IrVerif.PassInfra.C14_keeps_sorted_subst",
+    # second deepening round: Inline, CSE weight, node-adding passes stay ordered, kernel programs keep C01's invariant
+    "IrVerif.PassInfra.C14_flag_inline",
+    "IrVerif.PassInfra.C14_measure_inline",
+    "IrVerif.PassInfra.C14_fix_inline",
+    "IrVerif.PassInfra.C14_inline_valid",
+    "IrVerif.PassInfra.C14_cse_weight_mono",
+    "IrVerif.PassInfra.C14_keeps_sorted_add",
+    "IrVerif.PassInfra.C14_wf_remove_unused_nodes",
+    "IrVerif.PassInfra.C14_wf_identity_elimination",
+    "IrVerif.PassInfra.C14_wf_replay",
 ]
 ASSUMPTIONS = [
     "passes are modelled as arbitrary functions of an abstract world (identity rule, manager flag, honesty of "
@@ -145,6 +163,53 @@ ASSUMPTIONS = [
 ]
 
 logging.getLogger("onnx_ir").setLevel(logging.CRITICAL)
+
+
+class _Timeout(BaseException):
+    """a call of the implementation did not return within the CPU / wall-clock guard (not an Exception: neither the code
+    under test nor an `except Exception` of the harness may swallow it)"""
+
+
+_ITEM_CPU_S = float(__import__("os").environ.get("C14_ITEM_CPU_S", "60"))    # one item takes milliseconds to ~1 s
+_ITEM_WALL_S = float(__import__("os").environ.get("C14_ITEM_WALL_S", "900"))  # a blocked (not spinning) call; generous under load
+
+
+@contextlib.contextmanager
+def _guard(cpu_s: float | None = None, wall_s: float | None = None):
+    """CPU-time and wall-clock interval timers around one item of a stream (main thread of the process only - that is
+    where the main process and the pmap workers run the harness).  Not re-entrant: the streams never nest it."""
+    import signal
+    import threading
+
+    if threading.current_thread() is not threading.main_thread():
+        yield
+        return
+
+    def _h(signum, frame):
+        raise _Timeout("CPU guard" if signum == signal.SIGVTALRM else "wall-clock guard")
+
+    old_v = signal.signal(signal.SIGVTALRM, _h)
+    old_r = signal.signal(signal.SIGALRM, _h)
+    signal.setitimer(signal.ITIMER_VIRTUAL, cpu_s or _ITEM_CPU_S)
+    signal.setitimer(signal.ITIMER_REAL, wall_s or _ITEM_WALL_S)
+    try:
+        yield
+    finally:
+        signal.setitimer(signal.ITIMER_VIRTUAL, 0)
+        signal.setitimer(signal.ITIMER_REAL, 0)
+        signal.signal(signal.SIGVTALRM, old_v)
+        signal.signal(signal.SIGALRM, old_r)
+
+
+def _nonterm_sig(kind: str, it) -> str:
+    if kind == "pass":
+        try:
+            return f"nontermination:pass:{pass_table()[it[2]][0]}"
+        except Exception:  # noqa: BLE001
+            pass
+    if kind == "boundary":
+        return f"nontermination:boundary:{it[1]}"
+    return f"nontermination:{kind}"
 
 
 # =========================================================================== A. scripted infrastructure
@@ -2634,6 +2699,260 @@ def namefix_case(part: Part, reqs: list, seed: int) -> None:
               namefix="raised" if raised is not None else f"flag={bool(modified)}")
 
 
+# =========================================================================== H. second deepening round
+# InlinePass against C05's model of the pass with the flag / measure of Model/PassFlags3.lean (`passinfra.inline`), and
+# RemoveUnusedNodes / IdentityElimination as programs over C01's kernel (`passinfra.kpass`, Model/PassKernel.lean).
+
+
+def _inl_calls(model, accept) -> int:
+    """`inlCalls`: call nodes (main graph, functions, nested graphs) to a model-local function that the criteria accept"""
+    import onnx_ir as ir
+
+    n = 0
+    for gl in [model.graph, *model.functions.values()]:
+        for nd in ir.traversal.RecursiveGraphIterator(gl):
+            f = model.functions.get(nd.op_identifier())
+            if f is not None and accept(f):
+                n += 1
+    return n
+
+
+def inline_case(part: Part, reqs: list, seed: int) -> None:
+    import onnx_ir as ir
+    import onnx_ir.passes.common as cp
+    from harness import c05
+
+    c05._quiet()
+    r = random.Random(f"inline:{seed}")
+    source = ["c05", "c05", "edge", "c14", "c05"][seed % 5]
+    if source == "edge":
+        edge = c05._fn_edge_models()
+        tag, raw = edge[(seed // 5) % len(edge)]
+        build = lambda: ir.serde.deserialize_model(c05._parse(raw))  # noqa: E731
+        source = f"edge:{tag}"
+    elif source == "c14":
+        flavour = r.choice(["reuse", "plain", "messy", "cyclic"])
+        build = lambda: build_model(seed, flavour)  # noqa: E731
+        source = f"c14:{flavour}"
+    else:
+        size = r.choice([6, 10, 16, 24])
+        try:
+            proto = c05.gen_model_ex(random.Random(seed), size)[0]
+        except Exception as e:  # noqa: BLE001 - generator problem: visible in the histogram
+            part.count("inline:gen-error:" + type(e).__name__)
+            return
+        build = lambda: ir.serde.deserialize_model(proto)  # noqa: E731
+    try:
+        model = build()
+    except Exception as e:  # noqa: BLE001 - not a model the deserializer accepts (edge stream): nothing to inline
+        part.count("inline:unbuildable:" + type(e).__name__)
+        return
+    fids = [tuple(i) for i in model.functions]
+    mode = r.choice(["none", "none", "subset", "even", "nothing"])
+    if mode == "none":
+        ids, crit_req, mk = None, None, (lambda: cp.InlinePass())
+    else:
+        if mode == "subset":
+            ids = {i for i in fids if r.random() < 0.5}
+        elif mode == "even":
+            ids = {tuple(f.identifier()) for f in model.functions.values() if c05._crit_even(f)}
+        else:
+            ids = set()
+        crit_req = [list(i) for i in sorted(ids)]
+        mk = lambda: cp.InlinePass(criteria=lambda f: tuple(f.identifier()) in ids)  # noqa: E731
+    accept = (lambda f: True) if ids is None else (lambda f: tuple(f.identifier()) in ids)
+    case = {"inline_seed": seed, "source": source, "criteria": mode}
+    try:
+        before = c05.FEncoder().model(model)
+    except c05.Unencodable as e:
+        part.count("inline:unencodable:" + str(e)[:40])
+        return
+    mu0 = _inl_calls(model, accept)
+    sorted0 = is_sorted(model)
+    req = {"m": "passinfra.inline", "model": before, "crit": crit_req}
+    try:
+        res = mk()(model)
+    except _Timeout:
+        raise
+    except Exception as e:  # noqa: BLE001 - the theorems assume validF / not raised: the model must predict or exclude it
+        part.count("inline:real-pass-raised:" + type(_root_cause(e)).__name__)
+        reqs.append((req, {"raised": True, "exc": type(_root_cause(e)).__name__}, {"model": "inline", **case}))
+        return
+    try:
+        after = c05.FEncoder().model(model)
+    except c05.Unencodable as e:
+        part.count("inline:unencodable-after:" + str(e)[:40])
+        return
+    mu1 = _inl_calls(model, accept)
+    sorted1 = is_sorted(model)
+    links = check_links(model)
+    try:
+        res2 = mk()(model)
+        after2 = c05.FEncoder().model(model)
+    except _Timeout:
+        raise
+    except Exception as e:  # noqa: BLE001
+        part.fail(f"inline/second-application-raised/{type(_root_cause(e)).__name__}", f"InlinePass raised on its own result: {str(e)[:120]}", case)
+        return
+    c0, c1, c2 = c05.fcanon(before, False), c05.fcanon(after, False), c05.fcanon(after2, False)
+    # ---- the clauses of the theorems on the real objects (independent of the Lean model)
+    if not res.modified and c1 != c0:
+        part.fail("inline/modified-false-but-changed", "modified=False but the structure of the model changed: " + str(c05.first_diff(c1, c0)), case)
+    if res.modified and c1 == c0:
+        part.fail("inline/modified-true-but-unchanged", "modified=True but the structure of the model is the same", case)
+    if mu1 != 0:
+        part.fail("inline/accepted-call-left", f"{mu1} call(s) to a model-local function accepted by the criteria remain after the pass", case)
+    if res.modified and not mu1 < mu0:
+        part.fail("inline/measure-not-decreasing", f"modified=True but the number of accepted calls went {mu0} -> {mu1}", case)
+    if res2.modified or c2 != c1:
+        part.fail("inline/not-idempotent", f"applied to its own result the pass reports modified={res2.modified} / changes it", case)
+    if links:
+        part.fail("inline/links", "use-def / ownership links broken after the pass: " + links[0], case)
+    obs = {"raised": False, "flag": bool(res.modified), "before": mu0, "after": mu1, "canon": c1, "flag2": bool(res2.modified),
+           "idem": c2 == c1, "sorted": sorted0, "sorted_after": sorted1}
+    reqs.append((req, obs, {"model": "inline", **case}))
+    part.case(["inline", seed], bool(res.modified), case if seed % 211 == 0 else None,
+              inline=f"{source.split(':')[0]}:{mode}:flag={bool(res.modified)}", inline_calls=min(mu0, 6))
+
+
+def _khist(r: random.Random) -> tuple[list, int, list]:
+    """A history over C01's alphabet (op dicts of harness/kernel_ops.Real) that builds a main graph - Identity chains,
+    dead nodes, nodes with trailing None inputs, If-like nodes holding subgraphs that read outer values, unused and used
+    initializers, outputs that are inputs / Identity outputs - and sometimes a function graph.  Returns (ops, main graph
+    id, function graph ids).  Ids follow the registration order of `Real` (values: creation, node outputs at the node)."""
+    ops: list = []
+    cnt = {"v": 0, "n": 0, "g": 0}
+
+    def value(name, const=False):
+        ops.append({"op": "newValue", "name": name})
+        v = cnt["v"]
+        cnt["v"] += 1
+        if const:
+            ops.append({"op": "setConst", "v": v})
+        return v
+
+    def node(op_type, inputs, nout=1, graphs=()):
+        o = {"op": "newNode", "opType": op_type, "name": r.choice([None, f"n{cnt['n']}"]), "inputs": list(inputs),
+             "numOutputs": nout, "outputs": None, "graph": None}
+        if graphs:
+            o["attrGraphs"] = list(graphs)
+        ops.append(o)
+        n = cnt["n"]
+        cnt["n"] += 1
+        outs = list(range(cnt["v"], cnt["v"] + nout))
+        cnt["v"] += nout
+        return n, outs
+
+    def graph(inputs, outputs, nodes, inits):
+        ops.append({"op": "newGraph", "inputs": list(inputs), "outputs": list(outputs), "nodes": list(nodes), "inits": list(inits)})
+        g = cnt["g"]
+        cnt["g"] += 1
+        return g
+
+    def body(depth, outer, tag):
+        """nodes of one graph; returns (inputs, outputs, node ids, initializers)"""
+        inputs = [value(f"{tag}x{i}") for i in range(r.randint(0 if depth else 1, 2))]
+        inits = [value(f"{tag}w{i}", const=True) for i in range(r.randint(0, 2))]
+        avail = inputs + inits + list(outer)
+        if not avail:
+            avail = [value(f"{tag}x0")]
+            inputs = list(avail)
+        local, nodes = [], []
+        for _ in range(r.randint(1, 6)):
+            k = r.random()
+            src = r.choice(avail + local + local)
+            if k < 0.35:
+                n, outs = node("Identity", [src])
+            elif k < 0.55:
+                n, outs = node(r.choice(["Relu", "Neg"]), [src])
+            elif k < 0.7:
+                n, outs = node("Add", [src, r.choice(avail + local)])
+            elif k < 0.82:
+                n, outs = node("Clip", [src, None, None] if r.random() < 0.7 else [src, None, r.choice(avail + local)])
+            elif k < 0.9:
+                n, outs = node("Split", [src], nout=2)
+            elif depth < 2:
+                subs = []
+                for bi in range(r.randint(1, 2)):
+                    si, so, sn, sw = body(depth + 1, avail + local, f"{tag}b{cnt['g']}_{bi}_")
+                    subs.append(graph(si, so, sn, sw))
+                n, outs = node("If", [src], graphs=subs)
+            else:
+                n, outs = node("Neg", [src])
+            nodes.append(n)
+            local += outs
+        outs = [r.choice(local) for _ in range(r.randint(1, 2))]
+        if r.random() < 0.25 and inputs:
+            outs.append(r.choice(inputs))
+        if r.random() < 0.15 and inits:
+            outs.append(r.choice(inits))
+        if depth and r.random() < 0.2 and outer:
+            # a subgraph that returns a captured value through an Identity node (keep rule 3b)
+            n, o = node("Identity", [r.choice(list(outer))])
+            nodes.append(n)
+            outs.append(o[0])
+        return inputs, list(dict.fromkeys(outs)), nodes, inits
+
+    mi, mo, mn, mw = body(0, [], "")
+    main = graph(mi, mo, mn, mw)
+    funcs = []
+    if r.random() < 0.4:
+        fi, fo, fn_, fw = body(1, [], "f_")
+        funcs.append(graph(fi, fo, fn_, []))
+    return ops, main, funcs
+
+
+def kpass_case(part: Part, reqs: list, seed: int) -> None:
+    import onnx_ir as ir
+    import onnx_ir.passes.common as cp
+    from harness import kernel_ops as ko
+
+    r = random.Random(f"kpass:{seed}")
+    which = ["dce", "ie"][seed % 2]
+    ops, main, funcs = _khist(r)
+    case = {"kpass_seed": seed, "pass": which}
+    real = ko.Real(model_sort=True)
+    _FP_KEEP.append(real)
+    mops = []
+    for op in ops:
+        o, kind, mop = real.apply(op)
+        if o != "ok":
+            part.count(f"kpass:history-step-rejected:{op['op']}:{kind}")
+            return
+        mops.append(mop)
+    if ko.wf_oracle(real):
+        part.count("kpass:history-not-wf")
+        return
+    functions = [ir.Function("local", f"f{g}", graph=real.graphs[g], attributes=[]) for g in funcs]
+    model = ir.Model(real.graphs[main], ir_version=10, functions=functions)
+    snap0 = real.snapshot()
+    raised = None
+    try:
+        p = cp.RemoveUnusedNodesPass() if which == "dce" else cp.IdentityEliminationPass()
+        res = p(model)
+    except _Timeout:
+        raise
+    except Exception as e:  # noqa: BLE001
+        raised = type(_root_cause(e)).__name__
+        res = None
+    # objects the pass created would have to be registered; these two passes create none
+    snap1 = real.snapshot()
+    viol = ko.wf_oracle(real)
+    if viol:
+        part.fail(f"kpass/{which}/invariant", f"C01's invariant (use-def / producer / ownership / keys / names) broken after the pass"
+                  f"{' (which raised ' + raised + ')' if raised else ''}: {viol[0]}", {**case, "violations": viol[:4]})
+    d = ko.delta(snap0, snap1)
+    changed = any(d[k] for k in d)
+    if res is not None and not res.modified and changed:
+        part.fail(f"kpass/{which}/modified-false-but-changed", "modified=False but the kernel-visible state changed: "
+                  + next(k for k in d if d[k]), case)
+    reqs.append(({"m": "passinfra.kpass", "ops": mops, "pass": which, "g": main, "funcs": funcs, "fuel": 8,
+                  "exact": ko.rauw_many_is_atomic()},
+                 {"d": d, "raised": raised is not None}, {"model": "kpass", "exc": raised, **case}))
+    part.case(["kpass", seed], changed, case if seed % 211 == 0 else None,
+              kpass=f"{which}:{'raised' if raised else 'changed' if changed else 'unchanged'}")
+
+
 # =========================================================================== workers / run
 
 
@@ -2652,43 +2971,50 @@ def _worker(job):
     for it in items:
         _FP_KEEP.clear()
         try:
-            if kind == "infra":
-                obs = run_infra_real(it)
-                infra_oracle(part, it, obs)
-                reqs.append(({"m": "passinfra.run", "p": it}, obs, {"model": "infra", "spec": it}))
-            elif kind == "capi":
-                req, obs, fails = run_capi_real(it)
-                for sig, what in fails:
-                    part.fail(sig, what, it)
-                reqs.append((req, obs, {"model": "capi", "case": it}))
-            elif kind == "pass":
-                seed, flavour, pi = it
-                name, mk = pass_table()[pi]
-                apply_pass_case(part, reqs, seed, flavour, name, mk)
-            elif kind == "compose":
-                compose_case(part, reqs, it)
-            elif kind == "dce":
-                dce_case(part, reqs, it)
-            elif kind == "flags":
-                flags_case(part, reqs, it)
-            elif kind == "sortflag":
-                sortflag_case(part, reqs, it)
-            elif kind == "flags2":
-                flags2_case(part, reqs, it)
-            elif kind == "sorted":
-                sorted_case(part, reqs, it)
-            elif kind == "opsets":
-                opsets_case(part, reqs, it)
-            elif kind == "unusedfn":
-                unusedfn_case(part, reqs, it)
-            elif kind == "namefix":
-                namefix_case(part, reqs, it)
-            elif kind == "reuse":
-                reuse_case(part, it)
-            elif kind == "funcseq":
-                funcseq_case(part, it)
-            elif kind == "boundary":
-                boundary_case(part, *it)
+          with _guard():
+              if kind == "infra":
+                  obs = run_infra_real(it)
+                  infra_oracle(part, it, obs)
+                  reqs.append(({"m": "passinfra.run", "p": it}, obs, {"model": "infra", "spec": it}))
+              elif kind == "capi":
+                  req, obs, fails = run_capi_real(it)
+                  for sig, what in fails:
+                      part.fail(sig, what, it)
+                  reqs.append((req, obs, {"model": "capi", "case": it}))
+              elif kind == "pass":
+                  seed, flavour, pi = it
+                  name, mk = pass_table()[pi]
+                  apply_pass_case(part, reqs, seed, flavour, name, mk)
+              elif kind == "compose":
+                  compose_case(part, reqs, it)
+              elif kind == "dce":
+                  dce_case(part, reqs, it)
+              elif kind == "flags":
+                  flags_case(part, reqs, it)
+              elif kind == "sortflag":
+                  sortflag_case(part, reqs, it)
+              elif kind == "flags2":
+                  flags2_case(part, reqs, it)
+              elif kind == "sorted":
+                  sorted_case(part, reqs, it)
+              elif kind == "opsets":
+                  opsets_case(part, reqs, it)
+              elif kind == "unusedfn":
+                  unusedfn_case(part, reqs, it)
+              elif kind == "namefix":
+                  namefix_case(part, reqs, it)
+              elif kind == "reuse":
+                  reuse_case(part, it)
+              elif kind == "funcseq":
+                  funcseq_case(part, it)
+              elif kind == "boundary":
+                  boundary_case(part, *it)
+              elif kind == "inline":
+                  inline_case(part, reqs, it)
+              elif kind == "kpass":
+                  kpass_case(part, reqs, it)
+        except _Timeout as e:
+            part.fail(_nonterm_sig(kind, it), f"a call of the implementation did not return ({e}) in stream {kind}", {"item": str(it)[:300], "stream": kind})
         except Exception as e:  # noqa: BLE001 - harness bug: surface it, never hide
             import traceback
 
@@ -2777,6 +3103,54 @@ def _compare(ctx: Ctx, req: dict, obs: dict, info: dict, out: dict) -> None:
         if out.get("flag") and not out.get("after") < out.get("before") and not (base == "cse" and out.get("inserted")):
             ctx.disagree(f"flags2 {info['pass']}: the model's measure did not drop although the flag is up", info, out.get("before"), out.get("after"))
         ctx.count(f"flags2:{base}:sorted-stays-sorted={(not out.get('sorted')) or bool(out.get('sorted_after'))}")
+    elif m == "inline":
+        from harness import c05
+
+        ctx.count("concrete:inline")
+        ctx.count(f"inline:hyp-validF={out.get('valid')}")
+        ctx.count(f"inline:hyp-funcIdsNodup={out.get('nodup')}")
+        ctx.count(f"inline:hyp-not-stuck={not out.get('stuck')}")
+        if obs["raised"]:
+            # the real pass raised: the model must predict it (`raised`: a call does not supply a function input that the
+            # function returns) or the model must be outside validF (the hypothesis of C14_inline_valid)
+            if out.get("raised"):
+                ctx.count("inline:raise-predicted:" + obs["exc"])
+            elif out.get("valid"):
+                ctx.disagree(f"InlinePass raised {obs['exc']} on a model that satisfies validF and for which the model of the pass predicts no raise", info, {"valid": True, "raised": False}, "raised")
+            else:
+                ctx.count("inline:raised-on-invalid:" + obs["exc"])
+            return
+        if out.get("raised"):
+            ctx.disagree("inline: the model of the pass predicts a raise but the real pass returned", info, "raised", "returned")
+            return
+        if not out.get("valid"):
+            ctx.count("inline:skipped-not-validF")
+            return  # C05's transcription is for validF models (the theorems C14_*_inline need less, C14_inline_valid needs it)
+        ctx.count("inline:under-C14_inline_valid")
+        if not out.get("runok") or not out.get("run_is_model"):
+            ctx.disagree("inline: validF and no raise, but the model fell back to the unchanged model (C05_inline_total says it cannot)", info, {k: out.get(k) for k in ("runok", "stuck", "run_is_model")}, None)
+        lean = {k: out.get(k) for k in ("flag", "before", "after", "flag2", "idem")}
+        impl = {k: obs[k] for k in lean}
+        if lean != impl:
+            ctx.disagree("inline: flag / #accepted calls before and after / second application differ from InlinePass", info, lean, impl)
+        elif c05.fcanon(out["model"], False) != obs["canon"]:
+            ctx.disagree("inline: result model differs from InlinePass at " + str(c05.first_diff(c05.fcanon(out["model"], False), obs["canon"])), info, None, None)
+        # the clauses of C14_inline_valid / C14_flag_inline / C14_measure_inline / C14_fix_inline on the model's own numbers
+        if out.get("after") != 0 or out.get("after_run") != 0 or (out.get("flag") and not out.get("after") < out.get("before")) or out.get("flag2") or not out.get("idem") or out.get("stuck2"):
+            ctx.disagree("inline: the model contradicts its theorems (measure 0 after a run, strict decrease, second application False and unchanged)", info, {k: out.get(k) for k in ("flag", "before", "after", "after_run", "flag2", "idem", "stuck2")}, None)
+        ctx.count(f"inline:sorted-stays-sorted={(not obs['sorted']) or obs['sorted_after']}")
+        if obs["sorted"] and not obs["sorted_after"]:
+            ctx.fail("inline/order", "a topologically ordered model is no longer ordered after InlinePass", info)
+    elif m == "kpass":
+        ctx.count("concrete:kpass")
+        if out.get("raised") != obs["raised"]:
+            ctx.disagree(f"kpass {info['pass']}: the kernel program {'raises' if out.get('raised') else 'returns'} but the real pass {'raised ' + str(info.get('exc')) if obs['raised'] else 'returned'}", info, out.get("raised"), obs["raised"])
+        elif out.get("d") != obs["d"]:
+            what = next((k for k in obs["d"] if out.get("d", {}).get(k) != obs["d"][k]), "?")
+            ctx.disagree(f"kpass {info['pass']}: the world after the kernel program differs from the real objects after the pass in {what}", info, _short_json(out.get("d", {}).get(what)), _short_json(obs["d"].get(what)))
+        if not out.get("replay_same") or not out.get("late"):
+            ctx.disagree("kpass: the program's world is not the replay of its calls / a late check failed (C14_wf_* say it cannot)", info, {k: out.get(k) for k in ("replay_same", "late")}, None)
+        ctx.count(f"kpass:{info['pass']}:calls={min(out.get('calls', 0), 6)}")
     elif m == "namefix":
         ctx.count("concrete:namefix")
         model = {k: out.get(k) for k in ("vnames", "nnames", "dicts", "initOf", "modified", "raised")}
@@ -2798,6 +3172,11 @@ def _compare(ctx: Ctx, req: dict, obs: dict, info: dict, out: dict) -> None:
         keys = [k for k in obs]
         if any(out.get(k) != obs[k] for k in keys):
             ctx.disagree(f"{m}: model differs from the pass", info, {k: out.get(k) for k in keys}, obs)
+
+
+def _short_json(x, n: int = 600) -> str:
+    t = json.dumps(x, separators=(",", ":"), default=str)
+    return t if len(t) <= n else t[:n] + "..."
 
 
 def _resolve_fault(reqs_obs: list) -> None:
@@ -2889,6 +3268,10 @@ def run(ctx: Ctx) -> None:
     jobs += [("opsets", c) for c in _chunks([rng.randrange(10**9) for _ in range(ctx.pick(300, 3000))], 8)]
     jobs += [("unusedfn", c) for c in _chunks([rng.randrange(10**9) for _ in range(ctx.pick(300, 3000))], 8)]
     jobs += [("namefix", c) for c in _chunks([rng.randrange(10**9) for _ in range(ctx.pick(600, 6000))], 8)]
+    # H (second deepening round): InlinePass on C05's model + flag / measure; RemoveUnusedNodes / IdentityElimination as
+    # programs over C01's kernel
+    jobs += [("inline", c) for c in _chunks([rng.randrange(10**9) for _ in range(ctx.pick(700, 7000))], 16)]
+    jobs += [("kpass", c) for c in _chunks([rng.randrange(10**9) for _ in range(ctx.pick(700, 7000))], 16)]
     # D: every pass x {ok, lazy tensor raises, serialization raises, call raises}
     bitems = []
     for _ in range(ctx.pick(150, 1500)):
@@ -2923,7 +3306,12 @@ def run(ctx: Ctx) -> None:
         _compare(ctx, req, obs, info, out)
     # mgrloop against a direct Python reading of PassManager.call over scripted rounds
     for req, out in zip(loop_reqs, outs[len(reqs_obs):]):
-        exp = _mgrloop_real(req)
+        try:
+            with _guard():
+                exp = _mgrloop_real(req)
+        except _Timeout as e:
+            ctx.fail("nontermination:mgrloop", f"PassManager.call did not return ({e})", req)
+            break
         ctx.case(req, True, None, mgrloop="1")
         if out != exp:
             ctx.disagree("mgrloop: differs from PassManager.call", req, out, exp)
@@ -2961,7 +3349,29 @@ def replay(ctx: Ctx, obj: dict, _count: bool = True) -> None:
     """Re-run one recorded case (a replay file written by a violation, or a corpus line)."""
     case = obj.get("case", obj)
     part, reqs = _Part(), []
-    if isinstance(case, dict) and "pass" in case and "seed" in case and "fault" not in case:
+    try:
+        with _guard():
+            done = _replay_one(ctx, case, part, reqs)
+    except _Timeout as e:
+        part.fail("nontermination:replay", f"a call of the implementation did not return ({e}) while replaying", {"case": str(case)[:300]})
+        done = True
+    if not done:
+        run(ctx)
+        return
+    ctx.merge(part)
+    _resolve_fault(reqs)
+    outs = lean_batch_parallel([r for r, _o, _c in reqs]) if reqs else []
+    for (req, obs, info), out in zip(reqs, outs):
+        if not req.get("unresolved"):
+            _compare(ctx, req, obs, info, out)
+
+
+def _replay_one(ctx: Ctx, case, part, reqs) -> bool:
+    if isinstance(case, dict) and "inline_seed" in case:
+        inline_case(part, reqs, case["inline_seed"])
+    elif isinstance(case, dict) and "kpass_seed" in case:
+        kpass_case(part, reqs, case["kpass_seed"])
+    elif isinstance(case, dict) and "pass" in case and "seed" in case and "fault" not in case:
         table = dict(pass_table())
         apply_pass_case(part, reqs, case["seed"], case.get("flavour", "plain"), case["pass"], table[case["pass"]])
     elif isinstance(case, dict) and "compose" in case:
@@ -2992,11 +3402,5 @@ def replay(ctx: Ctx, obj: dict, _count: bool = True) -> None:
         infra_oracle(part, case, obs)
         reqs.append(({"m": "passinfra.run", "p": case}, obs, {"model": "infra", "spec": case}))
     else:
-        run(ctx)
-        return
-    ctx.merge(part)
-    _resolve_fault(reqs)
-    outs = lean_batch_parallel([r for r, _o, _c in reqs]) if reqs else []
-    for (req, obs, info), out in zip(reqs, outs):
-        if not req.get("unresolved"):
-            _compare(ctx, req, obs, info, out)
+        return False
+    return True
